@@ -218,6 +218,33 @@ def work_typemix(job):
                                 acc.violation(dict(kind='typemix', fn=op, formula=form, values=jsonable(A), scalar=jsonable(sc),
                                                    verdict='wrong-element', observed=jsonable(got), expected=jsonable(exp)),
                                               f'{{{form}}} with array {A} and scalar F1={sc!r} = {got!r}, scalar application gives {exp!r}')
+    # larger arrays (9 .. 16 elements) holding every type twin at once, each twin first in turn
+    for rot in range(len(pool)):
+        if rot % m != k0 % len(pool) and m > 1:
+            continue
+        for rev in (False, True):
+            elems = pool[rot:] + pool[:rot]
+            if rev:
+                elems = elems[::-1]
+            for shape in ((3, 3), (4, 4), (2, 5), (5, 2), (1, 9)):
+                n = shape[0] * shape[1]
+                flat = (elems * 2)[:n]
+                A = [flat[r * shape[1]:(r + 1) * shape[1]] for r in range(shape[0])]
+                env = env_of(A, 1, 1)
+                a_ref = rng(1, 1, shape)
+                taddr = AddressRange('S!' + rng(11, 1, shape))
+                for f in funcs:
+                    o = ev.run(f.format(a=a_ref), env, cse=taddr)
+                    acc.add('evaluations')
+                    acc.add('states')
+                    acc.add('distinct_nontrivial')
+                    exp = [[(lambda r: r[1] if r[0] == 'ok' else ('exc', r[1]))(evs.run(f.format(a='X1'), {'X1': x})) for x in row] for row in A]
+                    got = to_lists(o[1]) if o[0] == 'ok' else o
+                    if o[0] != 'ok' or not isinstance(got, list) or any(
+                            not W.veq(got[a][b], exp[a][b]) for a in range(shape[0]) for b in range(shape[1])):
+                        acc.violation(dict(kind='typemix', fn=f, formula=f.format(a=a_ref), values=jsonable(A), verdict='wrong-element',
+                                           observed=jsonable(got), expected=jsonable(exp)),
+                                      f'{{{f.format(a=a_ref)}}} over {A} = {got!r}, scalar application per element gives {exp!r}')
     acc.counts['transitions'] = acc.counts.get('evaluations', 0)
     return acc.result()
 
